@@ -165,7 +165,7 @@ def one_case(args):
             return [("discard", "reference-run-fails", shape, ref[-300:])]
         ref = re.sub(r"0x[0-9a-f]+|\(nil\)", lambda m: m.group(0), ref)
         for eng in ENGINES:
-            rc, got, err = run_cmd([c2m, "-L" + d, "-lvpext", mp] + list(eng), env=env)
+            rc, got, err = run_cmd([c2m] + list(eng[1:]) + ["-L" + d, "-lvpext", mp, eng[0]], env=env)   # options after -e* are arguments of the executed program
             en = "".join(eng).strip("-")
             ecls = "interp" if en == "ei" else "lazy" if en in ("el", "eb") else "gen"
             if rc != 0:
